@@ -87,7 +87,10 @@ def fixed_opnorm_cases():
     # LinearOperator C^8 -> C^3, Jacobians of holomorphic non-linear operators with these shapes
     for i, (kind, m, n, dt) in enumerate([("densec", 3, 8, "c128"), ("densec", 3, 8, "c64"), ("genc", 3, 8, "c128"),
                                           ("jacc", 3, 8, "c128"), ("densec", 8, 3, "c128"), ("densec", 4, 4, "c64"),
-                                          ("genc", 2, 5, "c64"), ("jacc", 5, 2, "c128")]):
+                                          ("genc", 2, 5, "c64"), ("jacc", 5, 2, "c128"),
+                                          # Jacobians of non-linear operators R^n -> C^m (real input, complex output): a
+                                          # real-linear map whose norm is that of the stacked real matrix [Re J; Im J]
+                                          ("jacrc", 3, 4, "c128"), ("jacrc", 4, 3, "c128")]):
         out.append({"kind": kind, "n": n, "m": m, "sv": [3.0, 1.0, 0.5], "gap": True, "seed": 31 + i, "scale_exp": 0,
                     "dtype": dt, "key": 20 + i, "budgets": [1, 7, 200]})
     return out
@@ -131,6 +134,18 @@ def build_op(case):
             F = operator.Operator(input_shape=(n,), output_shape=(m,), input_dtype=A.dtype, output_dtype=A.dtype, eval_fn=fn)
             return linop.jacobian(F, x0), np.array(A) @ np.diag(1.0 + np.array(x0))
         return linop.MatrixOperator(Aj), np.array(A)
+    if kind == "jacrc":
+        k = min(n, 2 * m)
+        sv = (sv + [sv[-1]] * k)[:k]
+        U, V = orth(rs, 2 * m, False), orth(rs, n, False)
+        Rm = (U[:, :k] * np.array(sv)) @ V[:, :k].T            # stacked real form with the prescribed singular values
+        A = Rm[:m] + 1j * Rm[m:]
+        Aj = snp.array(A)
+        x0 = snp.array(rs.uniform(-0.1, 0.1, size=n))
+        fn = lambda x: Aj @ (x + 0.5 * x * x)                    # Jacobian A diag(1 + x0), applied to real vectors
+        F = operator.Operator(input_shape=(n,), output_shape=(m,), input_dtype=np.float64, output_dtype=np.complex128, eval_fn=fn)
+        Jd = A @ np.diag(1.0 + np.array(x0))
+        return linop.jacobian(F, x0), np.vstack([Jd.real, Jd.imag])
     if kind == "jac":
         k = n
         U, V = orth(rs, n, False), orth(rs, n, False)
